@@ -44,6 +44,8 @@ fn gen(seed: u64, idx: u64, _tier: Tier) -> Plan {
         s.status_interval = Some(*rng.pick(&[1i64, 2, 3, 600, 600]));
         if rng.chance(1, 2) {
             plan.world.faults.send_err = *rng.pick(&[30u32, 200]);
+            // (a failed receive is not an event: the datagram stays queued and is counted when read)
+            plan.world.faults.recv_err = *rng.pick(&[0u32, 30]);
         }
     }
     if rng.chance(1, 3) {
@@ -63,7 +65,7 @@ fn gen(seed: u64, idx: u64, _tier: Tier) -> Plan {
         }
         if health {
             for _ in 0..rng.below(3) {
-                plan.step(t + rng.below(1000), Action::Health { id: hid });
+                plan.step(t + rng.below(1000), Action::Health { id: hid, reset: false });
                 hid += 1;
             }
         }
@@ -239,6 +241,20 @@ fn check(plan: &Plan, out: &RunOut) -> CheckOut {
                     "C17|stats_not_conserved|recorder=per_client|neither_counted_nor_overflowed".into(),
                     format!("{} events happened and no snapshot was published, but the per-client counters hold {} and the overflow counts {}", events, counted, overflowed),
                 );
+            }
+            // an interval's turned-away events belong to that interval: a recorder that has just
+            // been cleared (no address tracked) starts the next interval with an overflow count of 0
+            let stale: u64 = out.ctx.snaps.values().map(|s| s.overflows_on_empty).max().unwrap_or(0);
+            if stale > 0 {
+                co.violate(
+                    "C17",
+                    "stats_not_conserved",
+                    "C17|stats_not_conserved|recorder=per_client|overflow_count_survives_clear".into(),
+                    format!("a recorder tracking no address at all (just cleared) reports {} overflowed events: they were counted in an earlier interval already", stale),
+                );
+            }
+            if out.ctx.snaps.values().any(|s| s.overflows_before_resets > 0) {
+                co.probe("overflow_count_reset_by_a_published_snapshot");
             }
             if overflowed > 0 {
                 co.probe("stats_overflow_counted");
